@@ -417,6 +417,8 @@ def load(patches=None):
 
     def _apply_stmt(schema, stmt):
         if isinstance(stmt, qlast.CreateMigration):
+            if stmt.metadata_only:
+                return schema           # only the migration log changes (COMMIT MIGRATION REWRITE)
             for cmd in stmt.body.commands:
                 schema = _apply_stmt(schema, cmd)
             return schema
@@ -432,6 +434,9 @@ def load(patches=None):
         return FakeDelta(_apply_stmt(schema, stmt))
 
     def apply_sdl(target, *, base_schema, current_schema, testmode=False):
+        if 'mods' not in target.__dict__:
+            # START MIGRATION REWRITE: "an empty schema except for module default"
+            return ChainedSchema(base_schema.std, FlatSchema('R0', ('default', 'std')), base_schema.glob), []
         mods = frozenset(target.__dict__['mods'])
         tag = 'T(' + ','.join(sorted(mods - {'default', 'std'})) + ')'
         return ChainedSchema(base_schema.std, FlatSchema(tag, mods), base_schema.glob), []
@@ -452,6 +457,8 @@ def load(patches=None):
     s_ddl.delta_schemas = delta_schemas
     s_ddl.ddlast_from_delta = ddlast_from_delta
     s_obj.DeltaGuidance = DeltaGuidance
+    import edb.schema.migrations as s_migrations
+    s_migrations.get_ordered_migrations = lambda schema: []      # the migration log is not modelled
     s_schema.EMPTY_SCHEMA = FlatSchema('empty', modules=())
     pg_dbops.PLTopBlock = pg_dbops.PLBlock = pg_dbops.SQLBlock = FakeBlock
 
